@@ -68,6 +68,32 @@ func corpus() []caseT {
 	add("values-64k", true,
 		"open 0 1 50 300 1 4", "put 1 "+hexOf(pat(65536, 1)), "put 2 "+hexOf(pat(65535, 2)), "put 3 -", "put 1 "+hexOf(pat(1, 9)), "defrag 0", "close",
 		"open 0 0 "+defOpts, "get 2", "get 3", "get 1", "close")
+	// a key that is on disk, re-written (still pending) and deleted before the next sync: the delete must reach the log
+	add("overwrite-pending-then-delete", true,
+		"open 0 1 "+defOpts, "put 1 "+hexOf([]byte("value-one")), "put 2 bb", "sync", "put 1 "+hexOf([]byte("value-two")), "del 1",
+		"close", "open 0 1 "+defOpts, "get 1", "get 2", "close", "open 0 0 "+defOpts, "get 1")
+	add("overwrite-pending-then-delete-autosync", true,
+		"open 0 1 50 300 1 4", "put 7 aa", "put 8 bb", "put 7 cccc", "del 7", "put 9 dd", "del 8", "sync", "put 8 ee", "put 8 ff", "del 8",
+		"close", "open 0 1 "+defOpts, "get 7", "get 8", "get 9")
+	// the store is drained to empty (the sync after the last delete defragments automatically: needed space 0),
+	// then refilled in the same process: the current data file must survive cleanupold
+	add("drain-to-empty-then-refill", true,
+		"open 0 1 "+defOpts, "put 1 "+hexOf(pat(40, 1)), "put 2 "+hexOf(pat(33, 2)), "sync", "del 1", "del 2", "sync",
+		"put 3 "+hexOf(pat(40, 3)), "put 4 "+hexOf(pat(25, 4)), "sync", "put 5 "+hexOf(pat(30, 5)),
+		"close", "open 0 1 "+defOpts, "get 3", "get 4", "get 5", "close", "open 0 0 "+defOpts, "get 4", "browse -")
+	add("drain-forced-defrag-refill", true,
+		"open 0 1 "+defOpts, "put 1 "+hexOf(pat(40, 1)), "sync", "del 1", "defrag 1", "put 2 "+hexOf(pat(40, 2)), "sync", "put 3 cc",
+		"close", "open 0 1 "+defOpts, "get 2", "get 3")
+	add("drain-volatile-refill", true,
+		"open 1 1 "+defOpts, "put 1 "+hexOf(pat(40, 1)), "close", "open 1 1 "+defOpts, "del 1", "close",
+		"open 0 1 "+defOpts, "put 2 "+hexOf(pat(40, 2)), "del 2", "sync", "put 3 "+hexOf(pat(40, 3)), "close", "open 0 1 "+defOpts, "get 3")
+	// histories that continue after a crash: inside sync (data written, log not), inside a forced defrag, inside Close,
+	// before any file operation (pending changes lost), after an empty index log was created
+	add("crash-and-continue", true,
+		"open 0 1 "+defOpts, "put 1 aa", "put 2 bb", "sync", "crashat 2", "open 0 1 "+defOpts, "put 1 cc", "del 2", "sync", "crashat 1",
+		"open 0 1 "+defOpts, "put 3 dd", "put 1 ee", "defrag 1", "crashat 5", "open 0 1 "+defOpts, "put 4 ff", "close", "crashat 2",
+		"open 0 1 "+defOpts, "get 1", "get 4", "put 5 11", "crashat 0", "open 0 0 "+defOpts, "get 5", "put 6 22", "sync", "crashat 4",
+		"open 0 1 "+defOpts, "get 6", "put 6 33", "sync", "close", "open 0 1 "+defOpts, "get 6")
 	// more than 1 MiB of data: bufio's buffer overflows inside defrag (a write reaches the file before Flush)
 	big := []string{"open 0 1 50 300 100 100"}
 	for i := 0; i < 18; i++ {
@@ -138,7 +164,57 @@ func genCase(g *vlib.Rng, idx int) caseT {
 	nops := 10 + g.Intn(31)
 	lines := []string{genOpen(g)}
 	for i := 0; i < nops; i++ {
-		switch x := g.Intn(100); {
+		switch x := g.Intn(112); {
+		case x >= 108:
+			// the process dies inside the previous request; the history continues after NewDBExt on what is left
+			r.Hit("shape:crash-and-continue")
+			switch g.Intn(5) {
+			case 0:
+				lines = append(lines, "put "+key()+" "+hexOf(genValue(g, &big)), "sync")
+			case 1:
+				lines = append(lines, "put "+key()+" "+hexOf(genValue(g, &big)), "del "+key(), "defrag 1")
+			case 2:
+				lines = append(lines, "del "+key(), "put "+key()+" "+hexOf(genValue(g, &big)), "close")
+			case 3:
+				lines = append(lines, "sync", "close")
+			}
+			lines = append(lines, fmt.Sprintf("crashat %d", g.Intn(1000)), genOpen(g))
+		case x >= 104:
+			// shape: a synced key is re-written (pending) and deleted before the next sync
+			r.Hit("shape:overwrite-pending-then-delete")
+			k := key()
+			lines = append(lines, "put "+k+" "+hexOf(genValue(g, &big)), "sync", "put "+k+" "+hexOf(genValue(g, &big)), "del "+k)
+			switch g.Intn(3) {
+			case 0:
+				lines = append(lines, "sync")
+			case 1:
+				lines = append(lines, "close", genOpen(g))
+			}
+			lines = append(lines, "get "+k)
+		case x >= 100:
+			// shape: drain the store to empty (values > 24 bytes: the sync after the last delete defragments
+			// automatically), refill it in the same process, reopen
+			r.Hit("shape:drain-to-empty-then-refill")
+			for _, k := range keys {
+				lines = append(lines, "put "+itoa(k)+" "+hexOf(g.Bytes(25+g.Intn(40))))
+			}
+			if g.Bool() {
+				lines = append(lines, "sync")
+			}
+			for _, k := range keys {
+				lines = append(lines, "del "+itoa(k))
+			}
+			lines = append(lines, []string{"sync", "sync", "defrag 1", "defrag 0"}[g.Intn(4)])
+			for j := 0; j < 1+g.Intn(3); j++ {
+				lines = append(lines, "put "+key()+" "+hexOf(g.Bytes(25+g.Intn(40))))
+			}
+			if g.Bool() {
+				lines = append(lines, "sync", "put "+key()+" "+hexOf(g.Bytes(25+g.Intn(40))))
+			}
+			lines = append(lines, "close", genOpen(g))
+			for _, k := range keys {
+				lines = append(lines, "get "+itoa(k))
+			}
 		case x < 30:
 			lines = append(lines, "put "+key()+" "+hexOf(genValue(g, &big)))
 		case x < 40:
@@ -218,7 +294,7 @@ func abortStream(g *vlib.Rng, n int) {
 			}
 		}
 		if bad != "" {
-			r.PropFail("prop:br_abort", bad, caseT{"br_abort", false, []string{"open 0 1 " + defOpts, line}})
+			propFail("prop:br_abort", bad, caseT{"br_abort", false, []string{"open 0 1 " + defOpts, line}})
 		}
 		W.ask("close")
 	}
